@@ -22,6 +22,8 @@ V == Shapes[sid].v
 S(k, ch) == [k |-> k, ch |-> ch, of |-> ""]
 F(f, h, ch) == [f |-> f, h |-> h, ch |-> ch]     \* form kind, head symbol (for expressions), children
 Atom == F("atom", "", <<>>)
+\* an atom of a known class: "0", "1", "None", or "n" (anything else)
+A(c) == F("atom", c, <<>>)
 Sym(name) == F("sym", name, <<>>)
 
 Containers == {"list", "tuple", "dict", "set", "frozenset", "deque", "ordereddict", "counter", "defaultdict",
@@ -46,9 +48,13 @@ Form(v) ==
     [] v.k = "frozenset" -> F("expr", "frozenset", <<F("set", "", Forms(v.ch))>>)
     [] v.k = "bytearray" -> F("expr", "bytearray", <<Atom>>)
     [] v.k = "fraction" -> F("expr", "Fraction", <<Atom, Atom>>)
-    [] v.k \in {"range1", "slice1"} -> F("expr", IF v.k = "range1" THEN "range" ELSE "slice", <<Atom>>)
-    [] v.k \in {"range2", "slice2"} -> F("expr", IF v.k = "range2" THEN "range" ELSE "slice", <<Atom, Atom>>)
-    [] v.k \in {"range3", "slice3"} -> F("expr", IF v.k = "range3" THEN "range" ELSE "slice", <<Atom, Atom, Atom>>)
+    \* range / slice: v.of = <<start class, step class>>; start and step are printed unless they are the
+    \* type's own default (range: 0 and 1; slice: None and None) -- a slice starting at 0 keeps its 0
+    [] v.k \in {"range", "slice"} ->
+         LET s == v.of[1] t == v.of[2]
+             ds == IF v.k = "range" THEN "0" ELSE "None"
+             dt == IF v.k = "range" THEN "1" ELSE "None"
+         IN F("expr", v.k, IF t # dt THEN <<A(s), A("n"), A(t)>> ELSE IF s # ds THEN <<A(s), A("n")>> ELSE <<A("n")>>)
     [] v.k = "deque" -> F("expr", "deque", <<F("list", "", Forms(v.ch))>>)
     [] v.k = "ordereddict" -> F("expr", "OrderedDict", <<F("list", "", Pairs(v.ch))>>)
     [] v.k = "counter" -> F("expr", "Counter", <<F("dict", "", Forms(v.ch))>>)
@@ -67,7 +73,12 @@ Unform(f) ==
          CASE f.h = "frozenset" -> S("frozenset", Unforms(f.ch[1].ch))
            [] f.h = "bytearray" -> S("bytearray", <<>>)
            [] f.h = "Fraction" -> S("fraction", <<>>)
-           [] f.h \in {"range", "slice"} -> S(f.h \o (CASE Len(f.ch) = 1 -> "1" [] Len(f.ch) = 2 -> "2" [] OTHER -> "3"), <<>>)
+           [] f.h \in {"range", "slice"} ->
+                LET ds == IF f.h = "range" THEN "0" ELSE "None"
+                    dt == IF f.h = "range" THEN "1" ELSE "None"
+                IN [k |-> f.h, ch |-> <<>>,
+                    of |-> CASE Len(f.ch) = 1 -> <<ds, dt>> [] Len(f.ch) = 2 -> <<f.ch[1].h, dt>>
+                             [] OTHER -> <<f.ch[1].h, f.ch[3].h>>]
            [] f.h = "deque" -> S("deque", Unforms(f.ch[1].ch))
            [] f.h = "OrderedDict" -> S("ordereddict", Unpairs(f.ch[1].ch))
            [] f.h = "Counter" -> S("counter", Unforms(f.ch[1].ch))
